@@ -122,14 +122,16 @@ claim("C15",
 
 claim("C01",
       "sibling def-chain agreement between energy-side and derivative-side integral pipelines, truth-table comparison of special-case predicates, "
-      "affine analysis of finite-difference stencils, CFG force-assembly rule, sympy derivative of the symbolically interpreted core-core energy",
+      "affine analysis of finite-difference stencils, CFG force-assembly rule, sympy derivative of the symbolically interpreted core-core energy and of all 27 local-frame integrals",
       "Decides that the analytical derivative code differentiates the same parameter pipeline the energy code evaluates, that the "
       "core-core special cases and method dispatch agree on every element pair, that every semi-numerical stencil is central, "
       "restoring and differenced in the right order, that forces are minus the gradient of the reported energy with a clean "
       "gradient buffer and an antisymmetric real-atom scatter (padding rows exactly zero), and - by expression algebra - that the "
-      "analytical core-core gradient equals the derivative of the core-core energy for all six (method, X-H) cases.",
-      "Does not decide numerical agreement of whole-energy finite differences, the local-frame derivative kernels (der_TETCILF) or "
-      "the excited-state Z-vector gradient. Trusted: sympy, masked straight-line interpreter.",
+      "analytical core-core gradient equals the derivative of the core-core energy for all six (method, X-H) cases and that every "
+      "element of the local-frame derivative kernel der_TETCILF (22 heavy-heavy, 4 heavy-hydrogen, 1 hydrogen-hydrogen) is d/dr of the "
+      "corresponding energy integral (element interpreter + sympy differentiation, 45-digit identity test at random rational points).",
+      "Does not decide numerical agreement of whole-energy finite differences, the rotation of the derivative to the molecular frame or "
+      "the excited-state Z-vector gradient. Trusted: sympy, masked straight-line and element interpreters.",
       "DESIGN.md section 4, C01")
 
 claim("C04",
@@ -153,8 +155,12 @@ claim("C06",
       "formulas (Coulomb permutational symmetry of the packed integrals); the one-centre two-electron terms in fock and G equal "
       "the published formulas (independent oracle embedded in the checker); core-core special cases and Gaussian counts equal the "
       "method definitions; no long positional call swaps same-typed arguments.",
-      "Not decided (needs an independent numerical oracle, which static analysis does not have): Slater overlap branches, multipole "
-      "two-centre integral values, rho0/rho1/rho2 values, parameter CSV contents. Trusted: sympy, embedded published formulas.",
+      "Also decided since the second round: all 22 heavy-heavy, 4 heavy-hydrogen and the H-H local-frame two-centre integrals equal a "
+      "first-principles Dewar-Thiel point-charge oracle (sa/multipole.py: only the point-charge pictures of the six sp charge distributions, "
+      "the Klopman-Ohno interaction and rotational invariance are embedded; the two axis-orientation bits are fitted on two integrals and then "
+      "predict the other twenty); block reshape/transpose chains keep axis meaning; no pure tensor result is discarded; the h_pp floor. "
+      "Not decided: Slater overlap branches, the rho0/rho1/rho2 *values* produced by the secant solvers, the rotation to the molecular frame "
+      "(C02), parameter CSV contents. Trusted: sympy, 45-digit evaluation at random rational points for the identity tests.",
       "DESIGN.md section 4, C06")
 
 claim("C14",
